@@ -7,7 +7,8 @@ export GOFLAGS=-mod=mod GOPROXY=off GOSUMDB=off GOTOOLCHAIN=local
 P="$1"; N="$2"; SRC="${3:-/tmp/wt/$P.out/$N}"
 S=$(mktemp -d /tmp/seedeval.XXXXXX)
 trap 'git -C /repo worktree remove --force "$S/w" >/dev/null 2>&1; rm -rf "$S"' EXIT
-git -C /repo worktree add -q --detach "$S/w" HEAD || exit 3
+BASE="${SEED_BASE:-HEAD}"
+git -C /repo worktree add -q --detach "$S/w" "$BASE" || exit 3
 cd "$S/w"
 DEMO=$(ls "$SRC"/*_test.go 2>/dev/null | head -1)
 DIR=$(python3 -c "import json;print(json.load(open('$SRC/meta.json')).get('demo_dir','').strip('/'))" 2>/dev/null)
@@ -22,6 +23,14 @@ echo "--- patched + suite (want PASS)"; go test -vet=off -count=1 -timeout 300s 
 cp "$DEMO" "$DIR/zz_seed_demo_test.go"
 echo "--- patched + demo (want FAIL)"; go test -vet=off -count=1 -timeout 180s -run "$(grep -o 'func Test[A-Za-z0-9_]*' "$DEMO" | sed 's/func //' | paste -sd'|')" "$PKG" 2>&1 | tail -4; C3=${PIPESTATUS[0]}
 rm -f "$DIR/zz_seed_demo_test.go"
-echo "--- check on patched tree"
+echo "--- check on patched tree (current /repo HEAD + patch)"
+if [ "$BASE" != "HEAD" ]; then
+  git -C /repo worktree remove --force "$S/w" >/dev/null 2>&1
+  git -C /repo worktree add -q --detach "$S/w" HEAD || exit 3
+  cd "$S/w"
+  if ! git apply "$SRC/patch.diff" 2>/dev/null; then
+    if ! patch -p1 -s -f --no-backup-if-mismatch -i "$SRC/patch.diff" >/dev/null 2>&1; then echo "PATCH NEEDS PORT to current HEAD"; echo "RESULT prop=$P n=$N clean_demo_exit=$C1 suite_exit=$C2 patched_demo_exit=$C3 check_exit=NEEDS_PORT"; exit 0; fi
+  fi
+fi
 VERIF_REPO="$S/w" /verif/run.sh "$P" quick -no-evidence 2>&1 | grep -E "^C[0-9]+ tier|VIOLATION|violated|undecided|ERROR" | head -12; C4=${PIPESTATUS[0]}
 echo "RESULT prop=$P n=$N clean_demo_exit=$C1 suite_exit=$C2 patched_demo_exit=$C3 check_exit=$C4"
